@@ -206,7 +206,7 @@ func runC07(seed uint64, n int, out, stats string, _ []string) {
 		s := seed*1000003 + uint64(i)
 		r := NewRng(s)
 		spec := stdSpec(r)
-		g := &genOpts{Blocks: 30 + r.Intn(90), TxPerBlock: 6, Absences: true, Evidence: true, Malformed: true, TimeWalk: r.Intn(2) == 0}
+		g := &genOpts{Blocks: 30 + r.Intn(90), TxPerBlock: 6, Absences: true, Evidence: true, Malformed: true, OddChecks: true, TimeWalk: r.Intn(2) == 0}
 		h, res, _ := genHistory(s, spec, g)
 		blocks += len(h.Blocks)
 		for _, b := range res.Results {
@@ -231,6 +231,7 @@ func runC07(seed uint64, n int, out, stats string, _ []string) {
 	// byte-level fuzz against one node
 	node := nodeStd(3)
 	w := newWorld(node, NewRng(seed^0x5eed))
+	w.OddChecks = true
 	for i := 0; i < n*200; i++ {
 		gt := w.Gen()
 		if gt == nil {
@@ -247,7 +248,7 @@ func runC07(seed uint64, n int, out, stats string, _ []string) {
 	report("byte-level fuzz", node)
 	node.Cleanup()
 	writeStats(stats, &Stats{Property: "C07", Seed: seed, Cases: n + len(scenarios), Ops: txs + fuzz, NonTrivial: nontriv + len(scenarios),
-		Rule: "scripted crash scenarios from earlier findings; seeded histories (30-120 blocks, structured + malformed transactions, absences, byzantine evidence in every history, block-time walk); byte-level fuzz (truncated / bit-flipped / random / trailing bytes / length-mutated / deeply nested RLP) into DeliverTx and check-mode RunTx; every ABCI call under recover(); distinct by seed",
+		Rule: "scripted crash scenarios from earlier findings; seeded histories (30-120 blocks, structured + malformed transactions, a quarter of the redeemed checks validly signed but with a 62/66/73-byte lock or a nonce around the 16-byte limit, absences, byzantine evidence in every history, block-time walk); byte-level fuzz (truncated / bit-flipped / random / trailing bytes / length-mutated / deeply nested RLP) into DeliverTx and check-mode RunTx; every ABCI call under recover(); distinct by seed",
 		Dist: dist, Samples: []string{fmt.Sprintf("histories=%d blocks=%d txs=%d fuzz_inputs=%d", n, blocks, txs, fuzz)}, Monitor: mon,
 		Extra: map[string]interface{}{"blocks": blocks, "txs": txs, "fuzz_inputs": fuzz}})
 	NewCases(out).Close()
